@@ -2,7 +2,8 @@ import RsMatterVerif.Model.Codec.Buf
 /-!
 # Model of the BLE advertisement payload of a commissionable device: `transport/network/btp/gatt.rs`
 `AdvData::iter` / `service_payload_iter` and `AdvData::parse_adv` / `parse_service_data`
-(with `matter_service_data` and the `AdStructures` iterator). `RecoveryAdvData` is not modelled.
+(with `matter_service_data` and the `AdStructures` iterator). `RecoveryAdvData` is modelled in `Model/Codec/BleRecovery.lean`
+(it reuses `matterServiceData` of this file).
 -/
 namespace Codec.BleAdv
 open Codec
